@@ -42,6 +42,14 @@ def gen(rnd):
         else:
             if r < 0.12:
                 cmds.append(("vi-arg-digit", rnd.choice("234")))
+            elif r < 0.2:
+                # copies into a named register, then into its appending (upper-case) form: pure copies
+                reg = rnd.choice("ab")
+                if rnd.random() < 0.6:
+                    cmds += [("raw", b"k")] * rnd.randrange(1, 3)      # up a line (or into history)
+                cmds += [("raw", b'"', "pure"), ("raw", reg.encode(), "pure"), ("raw", rnd.choice([b"Y", b"yw", b"y$"]), "pure")]
+                cmds += E.moves(rnd, True, rnd.randrange(0, 2))
+                cmds += [("raw", b'"', "pure"), ("raw", reg.upper().encode(), "pure"), ("raw", rnd.choice([b"yw", b"ye", b"Y"]), "pure")]
             else:
                 c = rnd.choice(VI_CMD_ALL)
                 cmds.append((c,))
@@ -94,7 +102,7 @@ def check(rep, tier, seed):
                     fails.append("selection %r outside the buffer of length %d" % (sp, n_))
             if k >= 1 and k - 1 < len(s["cmds"]):
                 c = s["cmds"][k - 1]
-                if c[0] in EM_PURE + VI_PURE and prev is not None and o["waits"][k - 1]["local"] != "vi-opp":
+                if (c[0] in EM_PURE + VI_PURE or (c[0] == "raw" and len(c) > 2)) and prev is not None and (o["waits"][k - 1]["local"] != "vi-opp" or c[0] == "raw"):
                     stats["pure_command_steps"] += 1
                     nontriv.add((tuple(prev), c[0]))
                     if prev != line:
